@@ -129,6 +129,16 @@ theorem one_round_removes_all_dead (rt : Runtime) (d : Dir) :
     cases removesIP rt e <;> simp
   · simp [sweepIPDir, List.filter_filter]
 
+/-- "never for a running one" across rounds: the collector's verdict is about the container's state in THIS round.
+    Whatever rounds ran before under whatever runtime answers `rts` (the container may have been exited, dead or
+    unknown to the runtime in all of them), and whatever the environment wrote since (`add`, e.g. the state of a
+    container that was started again), a round under `rt` keeps every entry whose owner `rt` does not judge dead —
+    a collector that remembers an earlier "dead" verdict falsifies this (the harness runs a third round on the same
+    collector with the dead containers running again). -/
+theorem later_round_judges_current_state (rts : List Runtime) (d add : Dir) (rt : Runtime) (e : Entry) (he : e ∈ add)
+    (h : ¬ IsDeadIPFile rt e) : e ∈ sweepIPDir rt (rts.foldl (fun d r => sweepIPDir r d) d ++ add) :=
+  ((one_round_removes_all_dead rt _).1 e).2 ⟨List.mem_append.2 (Or.inr he), h⟩
+
 /-- the same for gc_dirs (network / port state files, file name = container id), with the port-clean callbacks:
     one pass removes exactly the dead containers' files, issues exactly one callback per removed file (with the file's
     name, in directory order) and none for anything that stays; a second pass removes nothing and calls nothing. -/
